@@ -448,6 +448,9 @@ def evaluate(root, env, uf_impl=None):
             continue
         if op == "var":
             if t.attr not in env:
+                if str(t.attr).startswith("undef!"):
+                    val[t.uid] = None          # an undefined value: unspecified unless the result does not depend on it
+                    continue
                 raise KeyError("no value for variable %s" % t.attr)
             val[t.uid] = env[t.attr]
             continue
